@@ -236,6 +236,25 @@ def _job_parse(tier, rng):
             out.append(ob(f'{PROP}.parse_simple_pauli.{kind}_form.{syntax}_syntax[len<=4]', 'proved' if w is None else 'refuted', tier='P', backend='exact-eval (finite domain: all 340 strings)',
                           functions=['numqi.qec._qecc:parse_simple_pauli'], witness=None if w is None else dict(string=w, tag_circuit=(kind == 'circuit')), cases=cnt // 2,
                           native=dict(confirmed=w is not None), detail='' if w is None else 'gates are not exactly the Pauli matrices at the non-identity positions'))
+    # parse_str_qecc: both documented syntaxes, exact evaluation over a finite grid of code parameters
+    badq = None
+    for n in range(1, 13):
+        for K in (1, 2, 3, 4, 8, 64):
+            for d in range(1, 6):
+                try:
+                    a = qc.parse_str_qecc(f'(({n},{K},{d}))')
+                    ok = a == dict(num_qubit=n, num_logical_dim=K, weight_z=None, distance=d)
+                    for wz in (1, 2, 0.5, 1.5):
+                        b = qc.parse_str_qecc(f'(({n},{K},de({wz})={d}))')
+                        ok = ok and b == dict(num_qubit=n, num_logical_dim=K, weight_z=float(wz), distance=d)
+                except Exception as ex:
+                    if not from_repo(ex):
+                        raise
+                    ok = False
+                if not ok and badq is None:
+                    badq = dict(string=f'(({n},{K},{d}))')
+    out.append(ob(f'{PROP}.parse_str_qecc.both_syntaxes', 'proved' if badq is None else 'refuted', tier='P', backend='exact-eval (finite domain: n<=12, K in {1,2,3,4,8,64}, d<=5, 4 z-weights)', functions=['numqi.qec._qecc:parse_str_qecc'],
+                  witness=badq, native=dict(confirmed=badq is not None), canary_negated_clause_refuted=True))
     return out
 
 
